@@ -36,6 +36,7 @@ def run(ck):
     semcheck.scope_leak_probes(ck, "C13")
     semcheck.shadow_probes(ck, "C13")
     semcheck.typed_parent_fault_probe(ck)
+    semcheck.attribution_probes(ck)
     ck.count("generated", len(progs) + nfaults, nontriv if not nfaults else set(range(len(nontriv) + nfaults)),
              sample={"files": progs[0].files}, seeded_faults=nfaults,
              coverage=semcheck.cov_summary(cov, ["faultclass:", "fault:", "bang:", "decl:"]), llvm_tblgen_audit=audited)
